@@ -2,9 +2,13 @@
 
 spec: ZSem (definitional interpreter of the core language in TLA+)
 bind: programs (exhaustive control-form nestings with traced leaves, at top level and in tail
-      positions of functions; seeded random programs per feature slice, rendered with random
-      legal whitespace/comments) are run on the real interpreter; value/error and the sequence
-      of host calls are validated by TLC against ZSem (SemTrace)
+      positions of functions; small exhaustive families: break/continue at every position of a
+      cond in a loop body incl. call arguments, the empty list / lists of different lengths /
+      hashes under map, apply, concat, ==, the empty hash literal, forms with nothing to
+      evaluate in value positions; seeded random programs per feature slice, rendered with
+      random legal whitespace/comments and in the infix syntax incl. a[i] and h.k) are run on
+      the real interpreter; value/error and the sequence of host calls are validated by TLC
+      against ZSem (SemTrace); open findings are reproduced as named deviations of ZSem
 """
 import semflow
 
@@ -14,11 +18,15 @@ PROP = "C02"
 def run():
     return semflow.run_sem(PROP, "sem", "shapes,control,loops,calls,data,heap,mixed", 500, 12000,
                            "all depth-2 nestings of and/or/begin/newScope/let/letseq/cond with traced leaves x 4 value patterns x "
-                           "{top level, function body}; seeded random programs per slice (control, loops with plain/labelled "
+                           "{top level, function body}, a self call at every leaf (a third of them with an argument that re-binds the callee); "
+                           "break/continue x {plain, labelled} x 8 cond positions (arm/predicate through and, or, let, newScope, begin; inside a call argument) x "
+                           "{no, let, newScope} wrap x {top level, function}; map/apply/concat/== over lists of 0..2 elements, == over 7 hashes pairwise, "
+                           "{} evaluated twice, ** on small integers, (begin)/(newScope) in 9 value positions; seeded random programs per slice (control, loops with plain/labelled "
                            "break/continue through let/newScope/cond, calls with fixed/variadic parameters and recursion, "
                            "data builtins with map/apply, heap = arrays and hashes as objects with identity: aset/hset/hdel/append/concat/keys "
                            "through second names, arguments, closures, containers in containers and loops, every tr a snapshot; "
-                           "mixed), a third of them with random legal whitespace/comments",
+                           "mixed) with jumps inside expressions and call arguments, arguments re-binding the callee, elements/fields/dot paths as tests and operands, "
+                           "a third of them with random legal whitespace/comments, half of the rest also in the infix syntax (a[i], h.k where the value is consumed)",
                            semflow.SEM_ASSUMPTIONS)
 
 
